@@ -9,6 +9,9 @@ from vh_wire import enc_num, image, padded, LIMIT, WIDTH
 from vh_reader_model import ostr_encode
 
 
+HISTORY = {"on": False}
+
+
 def fresh(npre):
     pre = sym_bytes("pre", npre)
     mode = sym_bool("mode")
@@ -16,9 +19,48 @@ def fresh(npre):
     check(len(w) == 0, "new writer is empty")
     check(w.string_sanitization_mode == False, "sanitisation is off by default")
     w.add_bytes(pre)
+    if HISTORY["on"]:
+        # an arbitrary-looking past: writes of every family (padded ones with more and with less padding than the step
+        # will need), a rejected write, mode toggles - whatever a writer may cache between calls has been exercised
+        h = sym_str("h", 1)
+        w.string_sanitization_mode = sym_bool("hmode")
+        w.add_fixed_string(h, fork(sym_int("hl1", 1, 9)), True)
+        w.add_fixed_encoded_string(h, fork(sym_int("hl2", 1, 4)), True)
+        w.add_string(h)
+        w.add_encoded_string(h)
+        w.add_short(sym_int("hs", 0, LIMIT["short"] - 1))
+        try:
+            w.add_char(sym_int("hbad", LIMIT["char"], None))
+            rejected = False
+        except ValueError:
+            rejected = True
+        check(rejected, "history: over-limit char rejected")
+        try:
+            w.add_fixed_string(h, 0)
+            rejected = False
+        except ValueError:
+            rejected = True
+        check(rejected, "history: over-long fixed string rejected")
+        pre = w.to_bytearray()
     w.string_sanitization_mode = mode
     check(w.string_sanitization_mode == mode, "mode getter returns what was set")
     return w, pre, mode
+
+
+def with_history(which, *args):
+    """the same inductive step, applied to a writer with a past (see fresh)"""
+    HISTORY["on"] = True
+    try:
+        if which == "number":
+            number(*args)
+        elif which == "string":
+            string(*args)
+        elif which == "fixed":
+            fixed(*args)
+        else:
+            raw_bytes(*args)
+    finally:
+        HISTORY["on"] = False
 
 
 def expect_appended(w, pre, exp, tag):
